@@ -48,7 +48,7 @@ fn checker() -> Checker<toml::value::Value> {
     Checker::new(config, meta_std()).unwrap()
 }
 
-const TEMPLATES: [&str; 24] = [
+const TEMPLATES: [&str; 26] = [
     "local t, i, x = {}, 1, 2\nt[i] = x\nx = t[i]\n",
     "local a, c = {}, {}\na.b = c.d\nc.d = a.b\n",
     "local t, i = {}, 1\nold(t[i], -1)\nprint(t[i].x == 0/0, t[i] ~= 0/0)\n",
@@ -73,6 +73,8 @@ const TEMPLATES: [&str; 24] = [
     "_G.foo = 1\n_G.bar, _G.foo = 2, 3\nprint(_G.foo)\n",
     "local t = { [1] = 1, [1] = 2, 3, [2] = 4, [0x10] = 5, [16] = 6, [\"k\"] = 7, k = 8 }\nprint(t)\n",
     "local function f(a, b) return a end\nf(1, 2, 3)\nlocal t = { f = f }\nt.f(1, 2, 3)\nmath.max(1, 2)\nx0 = 1\n",
+    "print\"one\"print\"two\"print\"three\"\nlocal a={}local b={}local c={}print(a,b,c)\n",
+    "local t = {}\nfor i = #t, 1 do print(i) end\nfor i = #t, 0 do\n  print(i)\nend\nif (t) then end\nlocal p, q = 1\n",
 ];
 
 pub fn fixtures() -> Vec<String> {
@@ -224,7 +226,7 @@ fn pick_program(r: &mut Rng, fx: &[String]) -> (String, &'static str) {
 }
 
 /// script variables that share a name with a library global (C14: the name must not matter)
-const LIBNAMED: [&str; 20] = [
+const LIBNAMED: [&str; 23] = [
     "local math = {}\nx, math.y = 1, 2\nprint(math)\n",
     "local function f(table)\n  y, table.z = 1, 2\n  return table\nend\nprint(f)\n",
     "local os = {}\n_G.q, os.clock = 1, 2\nprint(os)\n",
@@ -249,6 +251,9 @@ const LIBNAMED: [&str; 20] = [
     // a script variable used as a computed key next to fields spelled like it
     "local kind = \"size\"\nlocal defaults = {\n    kind = \"box\",\n    [kind] = 10,\n}\nprint(defaults, { [kind] = 1, [kind] = 2 }, { kind = 1, [\"kind\"] = 2 })\n",
     "local a, b = 1, 2\nlocal t = { a = 1, [a] = 2, b = 3, [b] = 4, [a] = 5 }\nprint(t.a, t.b, t[a], t[b])\n",
+    "local math = {}\nprint((math).floor(7, 2), (math).nope, (math):floor(1))\nlocal function f(string)\n  return (string).format(1, 2), (string).rep()\nend\nprint(f)\n",
+    "local _G = {}\n_G.counter = 1\nprint(_G.counter, _G.foo)\n",
+    "local function f(_G)\n  _G.hits = (_G.hits or 0) + 1\n  return _G.foo, _G\nend\nprint(f)\n",
 ];
 
 /// programs linted with the Luau library (table.clone exists): loop variables spelled like the fields they sit next to
@@ -260,7 +265,7 @@ const LUAU_NAMED: [&str; 5] = [
     "local function first(items)\n    local res = {}\n    for idx, item in ipairs(items) do\n        res.idx = item\n    end\n    return res, items.idx\nend\nreturn first\n",
 ];
 
-const RESERVED: [&str; 12] = ["self", "_G", "_", "type", "typeof", "require", "game", "script", "workspace", "plugin", "shared", "_ENV"];
+const RESERVED: [&str; 11] = ["self", "_", "type", "typeof", "require", "game", "script", "workspace", "plugin", "shared", "_ENV"];
 
 pub fn generate_c14(seed: u64, n: usize, _thorough: bool) -> Cases {
     let mut cases = Cases::new("C14");
@@ -293,7 +298,7 @@ pub fn generate_c14(seed: u64, n: usize, _thorough: bool) -> Cases {
                     && v.references.iter().any(|rid| ctx.scope_manager.references.get(*rid).map(|rf| rf.read).unwrap_or(false))
             })
         };
-        names.retain(|nm| !RESERVED.contains(&nm.as_str()) && (!in_lib(nm) || ((origin == "library-named" || origin == "generated") && read_somewhere(nm))) && !nm.starts_with('_') && nm != "..."
+        names.retain(|nm| !RESERVED.contains(&nm.as_str()) && (!in_lib(nm) || ((origin == "library-named" || origin == "generated") && read_somewhere(nm))) && (!nm.starts_with('_') || (nm == "_G" && origin == "library-named")) && nm != "..."
             && !src.contains(&format!("\"{nm}\"")) && !src.contains(&format!("'{nm}'")));
         if names.is_empty() {
             continue;
